@@ -64,10 +64,14 @@ def check_propose(r, ms, kernel, k):
     if kernel == "tpcn":
         delta = diff @ ms.inv_covariances[a] @ diff
         nu = ms.degrees_of_freedom[a]
+        if "shape" not in rec:
+            # the code does not draw through np.random.gamma (e.g. an equivalent chi-square / inverse-gamma form): the interception
+            # says nothing; check the proposal *law* instead
+            return law_of_proposal(r, ms, kernel, k)
         if not np.isclose(rec.get("shape", np.nan), (d + nu) / 2):
-            return f"gamma shape {rec.get('shape')!r}, specification (d+nu_a)/2 = {(d + nu) / 2!r}"
+            return law_of_proposal(r, ms, kernel, k) and f"gamma shape {rec.get('shape')!r}, specification (d+nu_a)/2 = {(d + nu) / 2!r}"
         if not np.isclose(rec.get("scale", np.nan), 2.0 / (nu + delta)):
-            return f"gamma scale {rec.get('scale')!r}, specification 2/(nu_a+delta) = {2.0 / (nu + delta)!r}"
+            return law_of_proposal(r, ms, kernel, k) and f"gamma scale {rec.get('scale')!r}, specification 2/(nu_a+delta) = {2.0 / (nu + delta)!r}"
         want = mu + math.sqrt(1 - sg ** 2) * diff + sg * math.sqrt(1.0 / g) * (L @ z)
     else:
         if "shape" in rec:
@@ -75,7 +79,48 @@ def check_propose(r, ms, kernel, k):
         want = r.u[k] + sg * (L @ z)
     want = apply_boundary_conditions(want, r.periodic, r.reflective)
     if not np.allclose(out, want, rtol=1e-10, atol=1e-12):
-        return f"_propose({k}) = {out.tolist()}, specification gives {want.tolist()}"
+        return law_of_proposal(r, ms, kernel, k) and f"_propose({k}) = {out.tolist()}, specification gives {want.tolist()}"
+    return None
+
+
+def law_of_proposal(r, ms, kernel, k, n=6000):
+    """Implementation-independent check of the proposal law with the real generator: for walker k (hard boundaries only) the
+    proposals v satisfy  (v - loc)^T Shape^{-1} (v - loc) / d ~ F(d, nu + d)  (tpCN: multivariate t with nu + d degrees of freedom,
+    loc = mu + sqrt(1 - s^2)(u - mu), Shape = s^2 (nu + delta)/(nu + d) Sigma)  resp. ~ chi2_d / d (RWM).  Returns a message when
+    the Kolmogorov-Smirnov statistic is beyond anything a correct sampler produces (p < 1e-6), None otherwise / when not applicable."""
+    if r.periodic is not None or r.reflective is not None:
+        return None
+    d = r.n_dim
+    a = r.assignments[k]
+    mu, S, sg = ms.means[a], ms.covariances[a], r.sigmas[a]
+    u = r.u[k].copy()
+    st = np.random.get_state()
+    np.random.seed(12345 + k)
+    try:
+        V = np.array([np.asarray(r._propose(k), dtype=float).copy() for _ in range(n)])
+    except Exception as e:
+        return f"_propose raised {type(e).__name__}: {e}"
+    finally:
+        np.random.set_state(st)
+    if kernel == "tpcn":
+        nu = ms.degrees_of_freedom[a]
+        diff = u - mu
+        delta = diff @ ms.inv_covariances[a] @ diff
+        loc = mu + math.sqrt(1 - sg ** 2) * diff
+        shape = sg ** 2 * (nu + delta) / (nu + d) * S
+        ref = stats.f(d, nu + d)
+    else:
+        loc, shape = u, sg ** 2 * S
+        ref = stats.chi2(d, scale=1.0 / d)
+    W = V - loc
+    q = np.einsum("ij,jk,ik->i", W, np.linalg.inv(shape), W) / d
+    ks = stats.kstest(q, ref.cdf)
+    if ks.pvalue < 1e-6:
+        return (f"law of the {kernel} proposal for walker {k}: KS distance {ks.statistic:.4f} (p = {ks.pvalue:.2g}, n = {n}) from the "
+                f"specified {'multivariate t' if kernel == 'tpcn' else 'normal'} law")
+    m = np.abs(np.linalg.solve(np.linalg.cholesky(shape), W.T).mean(axis=1))
+    if (m > 6.0 / math.sqrt(n) * (3.0 if kernel == "tpcn" else 1.0)).any():
+        return f"law of the {kernel} proposal for walker {k}: whitened proposals are not centred at the specified location (mean {m.tolist()})"
     return None
 
 
@@ -186,15 +231,52 @@ def whole_move_rejection():
         r._check_convergence = lambda acc: True
         r._adapt_sigma = lambda c, m: None
         u0 = r.u.copy()
+        # the oracle only speaks about walkers whose proposal really left the cube: record what the kernel proposed (the draws above
+        # steer the textbook implementation there; an equivalent implementation drawing differently may propose elsewhere)
+        proposed = {}
+        orig_propose = r._propose
+
+        def spy(k, orig_propose=orig_propose, proposed=proposed):
+            v = orig_propose(k)
+            proposed[k] = np.array(v, dtype=float, copy=True)
+            return v
+        r._propose = spy
         try:
             out = r.run()
         finally:
             np.random.randn, np.random.rand, np.random.gamma = o_randn, o_rand, o_gamma
-        prop_probe = None
-        if not np.array_equal(out[0], u0):
-            j = int(np.argmax(np.any(out[0] != u0, axis=1)))
-            return (f"{kernel}: a proposal leaving the cube in one coordinate moved walker {j} from {u0[j].tolist()} to {out[0][j].tolist()}: "
-                    f"out-of-cube proposals must be rejected as a whole")
+        for j, v in proposed.items():
+            left = bool(((v < 0) | (v > 1)).any())
+            if left and not np.array_equal(out[0][j], u0[j]):
+                return (f"{kernel}: the proposal {v.tolist()} of walker {j} leaves the cube, yet the walker moved from {u0[j].tolist()} to "
+                        f"{out[0][j].tolist()}: out-of-cube proposals must be rejected as a whole")
+    return None
+
+
+def law_after_moves():
+    """the proposal law must refer to the walker's *current* state also after walkers have moved (iterations >= 2): two
+    accept-everything iterations of the real run loop, then the law check of every walker at its new position"""
+    for kernel in ("tpcn", "rwm"):
+        rng = np.random.RandomState(21)
+        r, ms = make(kernel, 2, 1, None, None, rng)
+        r.sigmas[:] = 0.6 if kernel == "tpcn" else 0.3
+        o_rand = np.random.rand
+        np.random.rand = lambda *s: np.zeros(s)
+        r._check_convergence = lambda acc: r.iteration >= 2
+        r._adapt_sigma = lambda c, m: None
+        st = np.random.get_state()
+        np.random.seed(99)
+        try:
+            r.run()
+        except Exception as e:
+            return f"{kernel}: run raised {type(e).__name__}: {e}"
+        finally:
+            np.random.rand = o_rand
+            np.random.set_state(st)
+        for k in range(min(4, r.n_walkers)):
+            e = law_of_proposal(r, ms, kernel, k)
+            if e:
+                return "after two accepted moves: " + e
     return None
 
 
@@ -240,8 +322,15 @@ def accept_statement():
             r.run()
         finally:
             np.nan_to_num, np.random.rand = o_nan, o_rand
-        if "alpha" not in seen or len(props) != r.n_walkers:
-            return f"{kernel}: could not observe the acceptance statement"
+        if len(props) != r.n_walkers:
+            continue            # proposals not observable one call per walker (restructured loop): the oracle does not apply
+        if "alpha" not in seen:
+            # the acceptance vector is not passed through np.nan_to_num: observe the accept/reject *decisions* instead, at a grid
+            # of uniform draws c (same proposals each time: generator reseeded, state restored)
+            e = accept_decisions(r, kernel, u0, l0)
+            if e:
+                return e
+            continue
         up = np.array(props)
         f = r._compute_acceptance_factor(up, loglike_vals(up))
         want = np.minimum(1.0, np.exp(BETA * (loglike_vals(up) - l0) + f))
@@ -250,6 +339,52 @@ def accept_statement():
             i = int(np.argmax(np.abs(seen["alpha"] - want) * inb))
             return (f"{kernel}: acceptance probability of walker {i} is {seen['alpha'][i]!r}, "
                     f"min(1, exp(beta (l'-l) + factor)) = {want[i]!r} (beta={BETA})")
+    return None
+
+
+def accept_decisions(r, kernel, u0, l0):
+    x0 = r.x.copy()
+    b0 = None if r.blobs is None else r.blobs.copy()
+    sig0, it0, nc0 = r.sigmas.copy(), r.iteration, r.n_calls
+    o_rand = np.random.rand
+    for c in (0.05, 0.2, 0.35, 0.5, 0.65, 0.8, 0.95):
+        r.u[:], r.x[:], r.logl[:] = u0, x0, l0
+        r.sigmas[:], r.iteration, r.n_calls = sig0, it0, nc0
+        props = []
+        pt = r.prior_transform
+
+        def spy_pt(v, pt=pt, props=props):
+            props.append(np.array(v, dtype=float))
+            return pt(v)
+        r.prior_transform = spy_pt
+        st = np.random.get_state()
+        np.random.seed(4242)
+        saved = {nm: getattr(np.random, nm) for nm in ("rand", "random", "random_sample", "uniform")}
+        np.random.rand = lambda *s, c=c: np.full(s, c) if s else c
+        np.random.random = np.random.random_sample = lambda size=None, c=c: c if size is None else np.full(size, c)
+        np.random.uniform = lambda low=0.0, high=1.0, size=None, c=c: (low + (high - low) * c) if size is None else np.full(size, low + (high - low) * c)
+        try:
+            r.run()
+        finally:
+            for nm, fn_ in saved.items():
+                setattr(np.random, nm, fn_)
+            np.random.set_state(st)
+            r.prior_transform = pt
+        if len(props) < r.n_walkers:
+            return None
+        up = np.array(props[:r.n_walkers])
+        moved = np.any(r.u != u0, axis=1)
+        r.u[:] = u0
+        f = r._compute_acceptance_factor(up, loglike_vals(up))
+        want = np.minimum(1.0, np.exp(BETA * (loglike_vals(up) - l0) + f))
+        inb = np.all((up >= 0) & (up <= 1), axis=1)
+        for j in range(r.n_walkers):
+            if abs(want[j] - c) < 1e-6 or np.array_equal(up[j], u0[j]):
+                continue
+            should = bool(inb[j] and c < want[j])
+            if bool(moved[j]) != should:
+                return (f"{kernel}: walker {j} was {'accepted' if moved[j] else 'rejected'} at uniform draw {c} although "
+                        f"min(1, exp(beta (l'-l) + factor)) = {want[j]!r} (in cube: {bool(inb[j])})")
     return None
 
 
@@ -334,7 +469,7 @@ def main():
                 return
     if not inp.get("kernel"):
         for name, fn in (("rejection", hard_boundary_rejection), ("whole-move-rejection", whole_move_rejection),
-                         ("mode-statistics", mode_statistics_consistent), ("accept-statement", accept_statement), ("sigma-range", sigma_range),
+                         ("mode-statistics", mode_statistics_consistent), ("law-after-moves", law_after_moves), ("accept-statement", accept_statement), ("sigma-range", sigma_range),
                          ("wiring", wiring)):
             tried += 1
             try:
